@@ -564,7 +564,7 @@ class NumpyScn(Scenario):
 
     def __init__(self, n, rnd):
         self.n = n
-        n_il = 4 * n - rnd.choice([0, 1, 3])
+        n_il = max(2, 4 * n - rnd.choice([0, 1, 3]))      # the writers need at least two lines per axis (axis[1] - axis[0])
         self.shape = (n_il, rnd.choice([4, 5, 8]), rnd.choice([8, 9, 13]))
         self.data = rnd_cube(rnd, self.shape)
         self.tag = 'x'.join(map(str, self.shape))
@@ -590,7 +590,7 @@ class SegyScn(Scenario):
 
     def __init__(self, n, rnd):
         self.n = n
-        n_il = 4 * n - rnd.choice([0, 1, 2])
+        n_il = max(2, 4 * n - rnd.choice([0, 1, 2]))
         self.shape = (n_il, rnd.choice([4, 6]), rnd.choice([8, 11]))
         self.data = rnd_cube(rnd, self.shape)
         self.tag = 'x'.join(map(str, self.shape))
@@ -612,7 +612,7 @@ class Segy2dScn(Scenario):
 
     def __init__(self, n, rnd):
         self.n = n
-        nt = 16 * n - rnd.choice([0, 1, 9])
+        nt = max(2, 16 * n - rnd.choice([0, 1, 9]))
         self.shape = (nt, rnd.choice([8, 13]))
         self.data = rnd_cube(rnd, self.shape)
         self.tag = 'x'.join(map(str, self.shape))
@@ -636,7 +636,7 @@ class Segy2dB4Scn(Segy2dScn):
 
     def __init__(self, n, rnd):
         self.n = n
-        nt = 4 * n - rnd.choice([0, 1, 2])
+        nt = max(2, 4 * n - rnd.choice([0, 1, 2]))
         self.shape = (nt, rnd.choice([8, 13]))
         self.data = rnd_cube(rnd, self.shape)
         self.tag = 'x'.join(map(str, self.shape))
